@@ -59,7 +59,7 @@ def showDecRes : Except DecErr Msg → String
   | .error e => "err " ++ showDecErr e
 
 def parseFieldSpec (s : String) : Option (List Field) :=
-  (splitList s ";").mapM fun it =>
+  (if s = "-" then [] else splitList s ";").mapM fun it =>
     match it.splitOn "=" with
     | [idh, vr] =>
       match vr.splitOn "|" with
